@@ -90,22 +90,6 @@ NrMax == 2 * X32Bit - 1
 Args2 == [{0, 1} -> Vals]
 NoArgs == [a \in {0} |-> 0]
 Ev(ar, nr, args) == [arch |-> ar, nr |-> nr, args |-> args]
-\* SetToSeq fixes one order; it is exported with the cases
-EventSeq(s) ==
-  CASE s \in {"groups", "actions"} ->
-         SetToSeq({Ev(ar, nr, NoArgs) : ar \in {"own", "other"}, nr \in 0..NrMax})
-    [] s = "groups2" ->
-         SetToSeq({Ev(ar, nr, NoArgs) : ar \in {"own", "other"}, nr \in 0..NrMax})
-    [] s \in {"rich", "merge", "many", "manywide", "allops", "defects", "defects2"} ->
-         SetToSeq({Ev(ar, nr, a) : ar \in {"own", "other"},
-                                   nr \in Sys \cup {NSys, X32Bit, X32Bit + 1}, a \in Args2})
-    [] s = "single" ->
-         SetToSeq({Ev("own", 0, [a \in {0, 5} |-> IF a = 0 THEN v ELSE w]) : v \in Vals, w \in {0, B*B - 1}}
-                  \cup {Ev("own", 0, [a \in {0, 5} |-> IF a = 5 THEN v ELSE w]) : v \in Vals, w \in {0, B*B - 1}})
-    [] s = "boundary" ->
-         LET H == {0, 1, 2^(W-1) - 1, 2^(W-1), 2^W - 2, 2^W - 1} IN
-         SetToSeq({Ev("own", 0, [a \in {0} |-> h * B + l]) : h \in H, l \in H})
-
 
 ---------------------------------------------------------------------------
 (* C07: every listed defect injected at every position of valid policies.  *)
@@ -140,8 +124,72 @@ Inject(p) ==
 Defective1(dummy) == UNION {Inject(p) : p \in BasePolicies(0)}
 Defective2(dummy) == UNION {Inject(p) : p \in {q \in Defective1(0) : q.groups # <<>>}}
 
-Explicit(s) == s \in {"defects", "defects2"}
+
+---------------------------------------------------------------------------
+(* Real-scale scopes (MaxSkip = 255, NSys ~ 300, W = 8): sizes chosen so   *)
+(* that the distances of the architecture jump, of `action`, `nextSyscall` *)
+(* and `noMatch` jumps land on 253..258, and whole-table lists.            *)
+IdxRange(a, b) == [i \in 1..(b - a + 1) |-> a + i - 1]
+LongSizes == {1, 2, 126, 127, 128, 250, 251, 252, 253, 254, 255, 256, 257, 258, NSys}
+LG(names, act) == [names |-> names, conds |-> <<>>, act |-> act]
+\* k lists of c Equal-conditions: list j constrains argument i-1 to j+i
+EqLists(k, c) == [j \in 1..k |-> [i \in 1..c |-> [arg |-> i - 1, op |-> "Equal", val |-> j + i]]]
+KC == {<<1, 1>>, <<2, 1>>, <<62, 1>>, <<63, 1>>, <<64, 1>>, <<65, 1>>, <<21, 3>>, <<32, 2>>, <<31, 2>>,
+       <<11, 6>>, <<10, 6>>, <<16, 4>>, <<13, 5>>, <<127, 1>>, <<128, 1>>}
+LongPolicies(s) ==
+  CASE s = "long1" ->
+         {Mk(d, x, <<LG(IdxRange(0, n - 1), a)>>) :
+            d \in {"allow", "kill_process"}, x \in {TRUE, FALSE}, n \in LongSizes, a \in {"errno", "allow"}}
+    [] s = "long2" ->
+         LET G1(n) == LG(IdxRange(0, n - 1), "errno")
+             G2(m) == LG(IdxRange(m, NSys - 1), "kill_process")
+             G3 == LG(IdxRange(0, NSys - 1), "trap")
+             E  == LG(<<>>, "log") IN
+         UNION {{Mk("allow", x, <<G1(n), G2(m)>>), Mk("allow", x, <<G2(m), G1(n)>>),
+                 Mk("allow", x, <<G1(n), E, G2(m), G3>>)} :
+                 x \in {TRUE, FALSE}, n \in {1, 128, 254, 255, 256}, m \in {0, 127, 253, 254, 255, 256}}
+    [] s = "longconds" ->
+         {Mk("allow", x,
+             << [names |-> IdxRange(0, n - 1),
+                 conds |-> <<Entry(NSys - 2, EqLists(kc[1], kc[2])[1])>> \o
+                           [j \in 1..(kc[1] - 1) |-> Entry(NSys - 2, EqLists(kc[1], kc[2])[j + 1])] \o
+                           <<Entry(NSys - 1, <<[arg |-> 5, op |-> "GreaterThan", val |-> 7]>>)>>,
+                 act |-> "errno"],
+                LG(<<NSys - 3, NSys - 2>>, "kill_process") >>) :
+            x \in {TRUE, FALSE}, n \in {0, 1, 200}, kc \in KC}
+LongArgs(j) == [a \in 0..5 |-> j + a + 1]
+LongEvents(s) ==
+  LET Nrs == {0, 1, 2, 125, 126, 127, 128, 129, 249, 250, 251, 252, 253, 254, 255, 256, 257, 258,
+              NSys - 3, NSys - 2, NSys - 1, NSys, X32Bit, X32Bit + 1, X32Bit + 255, X32Bit + NSys - 1} IN
+  IF s \in {"long1", "long2"}
+  THEN SetToSeq({Ev(ar, nr, NoArgs) : ar \in {"own", "other"}, nr \in Nrs})
+  ELSE LET Js == {1, 2, 10, 11, 21, 31, 32, 62, 63, 64, 65, 127, 128, 129}
+           AS == {LongArgs(j) : j \in Js}
+                 \cup {[LongArgs(j) EXCEPT ![p] = 0] : j \in Js, p \in {0, 1, 2, 5}}
+                 \cup {[LongArgs(j) EXCEPT ![5] = 300] : j \in {1, 64}} IN
+       SetToSeq({Ev(ar, nr, a) : ar \in {"own", "other"}, nr \in {0, 199, 200, NSys - 3, NSys - 2, NSys - 1, NSys, X32Bit + NSys - 2}, a \in AS})
+
+Explicit(s) == s \in {"defects", "defects2", "long1", "long2", "longconds"}
 ExplicitPolicies(s) ==
   CASE s = "defects" -> BasePolicies(0) \cup Defective1(0)
     [] s = "defects2" -> BasePolicies(0) \cup Defective1(0) \cup Defective2(0)
+    [] s \in {"long1", "long2", "longconds"} -> LongPolicies(s)
+
+---------------------------------------------------------------------------
+\* SetToSeq fixes one order; it is exported with the cases
+EventSeq(s) ==
+  CASE s \in {"groups", "actions"} ->
+         SetToSeq({Ev(ar, nr, NoArgs) : ar \in {"own", "other"}, nr \in 0..NrMax})
+    [] s = "groups2" ->
+         SetToSeq({Ev(ar, nr, NoArgs) : ar \in {"own", "other"}, nr \in 0..NrMax})
+    [] s \in {"rich", "merge", "many", "manywide", "allops", "defects", "defects2"} ->
+         SetToSeq({Ev(ar, nr, a) : ar \in {"own", "other"},
+                                   nr \in Sys \cup {NSys, X32Bit, X32Bit + 1}, a \in Args2})
+    [] s \in {"long1", "long2", "longconds"} -> LongEvents(s)
+    [] s = "single" ->
+         SetToSeq({Ev("own", 0, [a \in {0, 5} |-> IF a = 0 THEN v ELSE w]) : v \in Vals, w \in {0, B*B - 1}}
+                  \cup {Ev("own", 0, [a \in {0, 5} |-> IF a = 5 THEN v ELSE w]) : v \in Vals, w \in {0, B*B - 1}})
+    [] s = "boundary" ->
+         LET H == {0, 1, 2^(W-1) - 1, 2^(W-1), 2^W - 2, 2^W - 1} IN
+         SetToSeq({Ev("own", 0, [a \in {0} |-> h * B + l]) : h \in H, l \in H})
 =============================================================================
